@@ -51,9 +51,9 @@ class _Msg:
         return self.b
 
 
-def _pair(ctx, frag, timeouts=0):
+def _pair(ctx, frag, timeouts=0, partial_sends=0):
     from paramiko.packet import Packetizer
-    wire = P.Wire(ctx, frag, timeouts)
+    wire = P.Wire(ctx, frag, timeouts, partial_sends)
     tx, rx = Packetizer(wire), Packetizer(wire)
     for p in (tx, rx):
         p._initial_kex_done = True
@@ -69,6 +69,7 @@ def _install(ctx, tx, rx, mode, bs, macsize, gen, gcmlog):
     if mode == "aead":
         k = ctx.byte("gcmkey%d" % gen)
         iv = b"\x00\x00\x00\x01" + b"\xff" * 7 + bytes([0xfe + 0])      # counter close to a byte carry
+        gcmlog.append(("keys-installed", iv))
         tx.set_outbound_cipher(P.AeadModel(ctx, k, gcmlog), bs, None, 16, key, aead=True, iv_out=iv)
         rx.set_inbound_cipher(P.AeadModel(ctx, k, gcmlog), bs, None, 16, key, aead=True, iv_in=iv)
         return
@@ -77,7 +78,8 @@ def _install(ctx, tx, rx, mode, bs, macsize, gen, gcmlog):
     rx.set_inbound_cipher(P.XorStream(ks), bs, "sha", macsize, key, etm=(mode == "etm"))
 
 
-def stream_case(mode, nmsgs, maxlen, frag=False, compress=False, macs=(12, 20, 32, 64), lens=None, timeouts=0, bss=(8, 16)):
+def stream_case(mode, nmsgs, maxlen, frag=False, compress=False, macs=(12, 20, 32, 64), lens=None, timeouts=0, bss=(8, 16),
+                partial_sends=0):
     def fn(ctx):
         from paramiko.packet import Packetizer, NeedRekeyException
 
@@ -93,7 +95,7 @@ def stream_case(mode, nmsgs, maxlen, frag=False, compress=False, macs=(12, 20, 3
         ctx.fresh = lambda: (setattr(ctx, "_n", ctx._n + 1), ctx._n)[1]
         bs = ctx.choice("block_size", list(bss)) if mode != "none" else 8
         macsize = ctx.choice("mac_size", list(macs)) if mode in ("classic", "etm") else 0
-        wire, tx, rx = _pair(ctx, frag, timeouts)
+        wire, tx, rx = _pair(ctx, frag, timeouts, partial_sends)
         if timeouts and ctx.flag("a-rekey-is-due-on-the-receiving-side"):
             rx._Packetizer__need_rekey = True
         mac = P.MacRecorder(ctx)
@@ -129,17 +131,30 @@ def stream_case(mode, nmsgs, maxlen, frag=False, compress=False, macs=(12, 20, 3
             for i in range(nmsgs):
                 ctx.prove(lift(got[i][0]) == sent[i][0], "message-types-arrive-in-order")
                 ctx.prove(P.beq(got[i][1], sent[i][1:]), "payload-bytes-arrive-unchanged")
+            # AES-GCM: every packet is sealed, and opened, under the next value of the 64-bit invocation counter (a nonce
+            # is never used twice under one key, so a replayed or reordered packet cannot verify)
+            for side in ("enc", "dec"):
+                iv0, k = None, 0
+                for rec in gcmlog:
+                    if rec[0] == "keys-installed":
+                        iv0, k = rec[1], 0
+                    elif rec[0] == side:
+                        want = iv0[:4] + ((int.from_bytes(iv0[4:], "big") + k) % 2 ** 64).to_bytes(8, "big")
+                        ctx.prove(bytes(rec[1]) == want, "gcm:packet-n-uses-invocation-counter-n(%s)" % ("sender" if side == "enc" else "receiver"))
+                        k += 1
             ctx.prove(len(wire.buf) == 0, "nothing-left-on-the-wire(no-loss,duplication-or-merging)")
             ctx.prove(lift(tx._Packetizer__sequence_number_out) == rx._Packetizer__sequence_number_in,
                       "sequence-counters-stay-in-step")
-    name = "%s-%dmsgs%s%s%s" % (mode, nmsgs, "-fragmented" if frag else "", "-compressed" if compress else "", "-timeouts" if timeouts else "")
+    name = "%s-%dmsgs%s%s%s%s" % (mode, nmsgs, "-fragmented" if frag else "", "-compressed" if compress else "", "-timeouts" if timeouts else "",
+                                "-partial-sends" if partial_sends else "")
     return Case(name, fn, ["message-types-arrive-in-order", "payload-bytes-arrive-unchanged",
                            "nothing-left-on-the-wire(no-loss,duplication-or-merging)", "sequence-counters-stay-in-step"],
                 {"mode": mode, "messages": nmsgs, "payload": ("1..%d symbolic bytes" % maxlen) if maxlen else
                  ("lengths around the padding boundaries" if lens else "1..2*block+2 symbolic bytes"), "block size": list(bss),
                  "mac size": list(macs), "start seqno": "0..2^32-1", "fragmentation": "each of the first five recv() calls returns n, n/2 or 1 bytes" if frag else "none",
                  "compression": compress, "key switch": "before any message",
-                 "socket timeouts": ("each of the first %d recv() calls may time out, with or without a re-key due" % timeouts) if timeouts else "none"},
+                 "socket timeouts": ("each of the first %d recv() calls may time out, with or without a re-key due" % timeouts) if timeouts else "none",
+                 "partial sends": ("each of the first %d send() calls accepts everything, one byte, half, or times out" % partial_sends) if partial_sends else "none"},
                 max_paths=60000, wall_s=240)
 
 
@@ -154,6 +169,7 @@ def cases(tier):
     cs.append(stream_case("aead", 1, 3, frag=True))
     cs.append(stream_case("classic", 1, 1, frag=True, macs=(12,), timeouts=3, bss=(8,)))
     cs.append(stream_case("etm", 1, 1, frag=True, macs=(12,), timeouts=3, bss=(8,)))
+    cs.append(stream_case("classic", 1, 2, macs=(12,), bss=(8,), partial_sends=3))
     cs.append(stream_case("etm", 2, None, compress=True, macs=(32,), lens=lambda bs: [1, bs - 4]))
     if not q:
         cs += [stream_case(m, 3, None, macs=(20,), lens=lambda bs: [1, bs - 4, bs + 3]) for m in MODES]
